@@ -427,6 +427,11 @@ def one_case(sh, case_seed, tracer):
         for c in t.columns:
             if c.default is not None and c.default.kind == 'str' and c.default.value in names:
                 c.default = None
+    inames = {it.name for e in doc.enums for it in e.items}
+    for t in doc.tables:
+        for c in t.columns:
+            if c.default is not None and c.default.kind == 'str' and c.default.value in inames:
+                c.default = None
     tnames = {t.name for t in doc.tables}
     for e in doc.enums:
         if e.name in tnames:
